@@ -75,6 +75,7 @@ def build(job):
     mons = [OutcomeMonitor(adm), ExecOnceMonitor(), LegalTransitionMonitor()]
     ex = Explorer(w, workload, mons, job.get("budget"), max_states=job.get("max_states", 150000),
                   time_cap=job.get("time_cap", 1500), audit_bisim=job.get("bisim", False))
+    ex._adm = adm
     return ex
 
 
@@ -86,6 +87,17 @@ def run_job(job):
         return audit(ex, job)
     ex.run()
     res = result_from(ex, "e1")
+    # the reference itself (in-order, exactly-once delivery) is not beyond question: where the intended outcome
+    # is plain - every task succeeds - it must be SUCCEEDED with every stage SUCCEEDED
+    import json as _json
+
+    if ex.wl.plainly_succeeds():
+        for o in ex._adm:
+            oo = _json.loads(o)
+            if oo["wf"] != "SUCCEEDED" or any(x != "SUCCEEDED" for x in oo["stages"].values()):
+                res["violations"].append({"kind": "in-order-exactly-once-run-does-not-succeed", "outcome": oo,
+                                          "sig": "in-order-run-wrong", "signature": f"e1:in-order-run-wrong:wf={oo['wf']}",
+                                          "workload": ex.wl.name, "trace": ["(in-order delivery, no fault)"]})
     res["job_spec"] = job
     return res
 
